@@ -1078,6 +1078,10 @@ class StubsStringGenerator:
             qname = qname or import_qname
 
             if not in_package:
+                if "." not in qname:
+                    # A name without a module path, e.g. an unresolved type name of a docstring, cannot be imported
+                    return
+
                 self.classes_outside_package.add(qname)
 
             if qname.replace(".", "/") != self._get_module_id():
